@@ -59,5 +59,11 @@ TEXTS = {
         level_text="Fault enumeration: the complete kind x state x criticality matrix as fixed cases on every run plus generated shapes/instants (~100 quick, ~2000 thorough). The failing component is the real status/failure/device-event path of the task manager, the role tree and the environment watcher. Timing bounds are generous (15 s for a 0.5 s mechanism).",
         level_note="Trusts the simulation's causality rule (a dead task sends nothing more); 'bounded time' = 15 s; two open findings (critical task TASK_FINISHED) are excluded by construction and reproduced by canaries.",
     ),
+    "C04": dict(
+        engine="simworld",
+        technique="stateful property-based testing (rapid): generated multi-environment histories with concurrent callers, slow kill acknowledgements / slow KILL calls / slow executor replies, against the whole real core; invariants over API snapshots (disjoint ownership, disjoint detectors) joined with every KILL/MESSAGE call at the simulated master",
+        level_text="Generated-history search with ownership invariants checked after every batch and every master-side call attributed against the ownership at the start of the batch; ~100 histories quick, ~2300 thorough, with task reuse on and off. Exploration level: interleavings are induced by delays and concurrent callers, not enumerated.",
+        level_note="Ownership snapshots are read through the public API at quiescence; the seeded change in KillTasks (stale kill list) is not reachable through the API because CreateEnvironment kills every unlocked task before deploying (see DESIGN.md).",
+    ),
 }
 NA_REASONS = {}
